@@ -369,7 +369,7 @@ impl Part for LibPart {
         "configuration grammar -> TOML: 1..2 pools, 1..2 users (with/without password, min_pool_size), shard id sets {0..n-1 for n<=4 and n=11..12, not starting at 0, gaps, leading zeros, duplicate values, '+1', negative, non-numeric}, server lists {primary, primary+replica, replicas only, empty, two primaries, duplicated server}, default_shard {absent, shard_N in/out of range, random, random_healthy, junk}, default_role {valid, junk, wrong case}, parser/splitting/plugins flags, regexes valid/invalid, automatic_sharding_key forms, auth_query; oracle: the verdict of Config deserialisation + validate() must be 'reject' for every configuration in the model's must-reject classes. Non-trivial = shard ids not exactly 0..n-1, several pools/users, or a non-default default_shard".into()
     }
     fn cases(&self, tier: Tier) -> u64 {
-        tier.pick(20_000, 600_000)
+        tier.pick(80_000, 1_200_000)
     }
     fn strategy(&self, _tier: Tier) -> BoxedStrategy<Case> {
         case_strategy()
@@ -420,7 +420,7 @@ impl Part for WirePart {
         "the same configuration grammar against the real binary with one mock backend per configured server: a configuration the binary refuses at start-up must be refused cleanly (exit status, no panic); for every configuration it accepts, each user logs in and for every shard number 0..n-1 and every role present runs a tagged statement that must be logged by a server of exactly that shard/role, the default_shard mode is exercised without SET SHARD, SHOW DATABASES/POOLS/SERVERS/STATS/CONFIG answer without error, and pgcat's stderr contains no panic. Non-trivial as in the lib part".into()
     }
     fn cases(&self, tier: Tier) -> u64 {
-        tier.pick(160, 5_000)
+        tier.pick(640, 10_000)
     }
     fn strategy(&self, _tier: Tier) -> BoxedStrategy<Case> {
         prop_oneof![2 => case_strategy(), 3 => case_strategy().prop_map(heal)].boxed()
